@@ -220,17 +220,18 @@ class C16(spec.Spec):
             if set(os.listdir(tmp)) != {os.path.basename(path)}:
                 out.violation("path-destination-written-elsewhere", fmt, {"files": sorted(os.listdir(tmp))}, hh)
                 return
-            # a text file whose encoding is not UTF-8: the stream, not the library, owns the encoding
-            p16 = os.path.join(tmp, "utf16." + base)
-            with open(p16, "w", encoding="utf-16", newline="") as f16:
+            # a text file whose encoding is not UTF-8 (GB18030 covers all of Unicode and has no byte-order mark a parser could
+            # detect): the stream, not the library, owns the encoding
+            p16 = os.path.join(tmp, "gb18030." + base)
+            with open(p16, "w", encoding="gb18030", newline="") as f16:
                 self.ser(doc, fmt, f16)
-            with open(p16, "r", encoding="utf-16", newline="") as f16:
+            with open(p16, "r", encoding="gb18030", newline="") as f16:
                 t16 = f16.read()
         except Exception as e:
             out.violation("serialize-raises", "%s:%s" % (fmt, type(e).__name__), {"error": repr(e)}, hh)
             return
         out.transitions += 5
-        texts = {"returned": s_ret, "StringIO": sio.getvalue(), "BytesIO": bio.getvalue(), "path": fbytes, "utf16-text-file": t16}
+        texts = {"returned": s_ret, "StringIO": sio.getvalue(), "BytesIO": bio.getvalue(), "path": fbytes, "gb18030-text-file": t16}
         # a text stream that is not an io.TextIOBase instance (tempfile's wrapper around one)
         try:
             with tempfile.NamedTemporaryFile("w+", encoding="utf-8", newline="", dir=tmp, suffix=".tmp") as tf:
@@ -256,7 +257,7 @@ class C16(spec.Spec):
                     out.violation("destinations-disagree", "xml:%s" % k, {"a": ref[:300], "b": v[:300]}, hh)
         else:
             ref = s_ret
-            for k in ("StringIO", "utf16-text-file", "tempfile-text-wrapper"):
+            for k in ("StringIO", "gb18030-text-file", "tempfile-text-wrapper"):
                 if k in texts and texts[k] != ref:
                     out.violation("destinations-disagree", "%s:%s" % (fmt, k), {"a": ref[:300], "b": texts[k][:300]}, hh)
             for k in ("BytesIO", "path"):
@@ -279,7 +280,7 @@ class C16(spec.Spec):
             "text-stream-nonseekable": lambda: dict(source=NSText(io.StringIO(text))),
             "binary-stream-nonseekable": lambda: dict(source=NSBytes(io.BytesIO(data))),
             "path": lambda: dict(source=path),
-            "utf16-text-file": lambda: dict(source=open(p16, "r", encoding="utf-16", newline="")),
+            "gb18030-text-file": lambda: dict(source=open(p16, "r", encoding="gb18030", newline="")),
             "tempfile-text-wrapper": lambda: dict(source=_tempfile_source(tmp, text)),
         }
         if base == "provn":
